@@ -21,6 +21,7 @@ open Penguin.Mux
 def Act.inRange : Act → Prop
   | .open _ _ port => port < 65536
   | .sendDgram d => d.fid < 4294967296 ∧ d.port < 65536
+  | .bindReq _ _ _ port => port < 65536
   | _ => True
 
 instance (a : Act) : Decidable (Act.inRange a) := by
@@ -95,7 +96,6 @@ def stepLb (p : PSb) : Act → Option PSb
       | [] => none
       | w :: rest =>
         match decMsg w with
-        | .msg (.frame (.bind ..)) => none          -- Bind requests are outside this fragment
         | .msg (.frame f) =>
           match processFrame p.a f false with
           | (e, _, none) =>
